@@ -182,6 +182,11 @@ def write_evidence(ctx: Ctx, mod: T.Any, wall: float, known_matched: T.List[str]
 
 def main(argv: T.List[str]) -> int:
     import argparse
+    import signal
+    try:
+        signal.signal(signal.SIGPIPE, signal.SIG_DFL)
+    except (AttributeError, ValueError):
+        pass
     ap = argparse.ArgumentParser()
     ap.add_argument("prop")
     ap.add_argument("--tier", default=os.environ.get("VERIF_TIER", "quick"), choices=["quick", "thorough"])
